@@ -14,6 +14,9 @@ CONSTANTS G,           \* grammar: "G12" (NV variables), "G3s"/"G3v"/"G1x" three
           NeedNot      \* TRUE: export only trees that contain a negation (C03)
 
 AllLeaves == CASE G = "G12" -> (IF NV = 1 THEN LeavesG1 ELSE LeavesG2(NV))
+               \* constant conditions (no variable at all) combined with ordinary ones
+               [] G = "G1k" -> << InC(LitI(1), LitL(<<0, 1>>), "in_"), InC(LitI(2), LitL(<<0, 1>>), "contains"),
+                                  InC(LitI(0), LitL(<<0, 1>>), "contains") >> \o Some(CoreLeaves(V(1)), 6)
                [] G = "G1s" -> LeavesG1                    \* one variable, an expression on it selected instead of it
                [] G = "G4"  -> LeavesG2(2)
                \* a small vocabulary that mixes the pairs of three variables (partial bindings meet in and_/or_ trees)
@@ -46,6 +49,7 @@ Selections ==
     [] G = "G3s" -> << Sel("set_of", <<V(1), V(2), V(3)>>), Sel("set_of", <<V(1), V(2)>>), Sel("set_of", <<V(2), V(3)>>),
                        Sel("entity", <<V(2)>>) >>
     [] G = "G2n" -> << Sel("entity", <<V(1)>>), Sel("set_of", <<V(1), V(2)>>), Sel("entity", <<V(2)>>) >>
+    [] G = "G1k" -> << Sel("entity", <<V(1)>>) >>
     \* the selected value may be any value, the falsy members of its sort and None included
     [] G = "G1s" -> << Sel("entity", <<At(V(1), "o")>>), Sel("entity", <<At(V(1), "n")>>), Sel("set_of", <<At(V(1), "o")>>),
                        Sel("entity", <<At(V(1), "s")>>), Sel("set_of", <<At(V(1), "o"), V(1)>>) >>
